@@ -791,8 +791,11 @@ func (b *UnsafeLinkBuffer) indexByte(c byte, skip int) int {
 func (b *UnsafeLinkBuffer) recalLen(delta int) (length int) {
 	if delta < 0 && len(b.cachePeek) > 0 {
 		// b.cachePeek will contain stale data if we read out even a single byte from buffer,
-		// so we need to reset it or the next Peek call will return invalid bytes.
-		b.cachePeek = b.cachePeek[:0]
+		// so the next Peek must not reuse it. It cannot be overwritten in place either: the
+		// result of an earlier Peek may still refer to it until Release, so retire it to b.caches
+		// (freed by the next Release) and let the next Peek allocate a new one.
+		b.caches = append(b.caches, b.cachePeek)
+		b.cachePeek = nil
 	}
 	return int(atomic.AddInt64(&b.length, int64(delta)))
 }
